@@ -292,8 +292,8 @@ func (cmd *mainCmd) Run(args []string) error {
 			continue
 		}
 
+		vhook.Event("gencheck", "file", filename, "skip", opts.SkipGenerated && checkGeneratedCode(f))
 		if opts.SkipGenerated && checkGeneratedCode(f) {
-			vhook.Event("generated", "file", filename)
 			log.Printf("generated file %s: skipped", filename)
 			continue
 		}
@@ -319,6 +319,7 @@ func (cmd *mainCmd) Run(args []string) error {
 			errors = append(errors, fmt.Errorf("failed to rewrite %q: %v", filename, err))
 			continue
 		}
+		vhook.Event("format", "file", filename, "ok", true)
 		bs := out.Bytes()
 		if !opts.SkipImportProcessing {
 			bs, err = imports.Process(filename, bs, &imports.Options{
